@@ -16,7 +16,13 @@ pub const VERIF_ROOT: &str = "/verif";
 /// Where evidence and newly saved replays are written (default: /verif). Experiments against
 /// scratch copies of the repository set VERIF_OUT so that they never touch the committed files.
 pub fn out_root() -> String {
-    std::env::var("VERIF_OUT").unwrap_or_else(|_| VERIF_ROOT.to_string())
+    std::env::var("VERIF_OUT").unwrap_or_else(|_| verif_root())
+}
+
+/// The directory holding known_findings.json and replays/ (the check wrapper exports its own
+/// location as VERIF_HOME, so that a snapshot of /verif run elsewhere is self-contained).
+pub fn verif_root() -> String {
+    std::env::var("VERIF_HOME").unwrap_or_else(|_| VERIF_ROOT.to_string())
 }
 
 pub fn repo_root() -> String {
@@ -114,7 +120,7 @@ pub struct KnownFindings {
 
 impl KnownFindings {
     pub fn load() -> Self {
-        let p = format!("{VERIF_ROOT}/known_findings.json");
+        let p = format!("{}/known_findings.json", verif_root());
         match std::fs::read_to_string(&p) {
             Ok(s) => serde_json::from_str(&s).unwrap_or_else(|e| {
                 eprintln!("HARNESS: cannot parse {p}: {e}");
@@ -410,7 +416,7 @@ pub fn save_replay<T: Serialize>(id: &str, campaign: &str, case: &T, fail: &Fail
 }
 
 pub fn list_replays(id: &str, campaign: &str) -> Vec<(PathBuf, ReplayFile)> {
-    let dir = format!("{VERIF_ROOT}/replays/{id}");
+    let dir = format!("{}/replays/{id}", verif_root());
     let mut out = vec![];
     if let Ok(rd) = std::fs::read_dir(&dir) {
         let mut paths: Vec<PathBuf> = rd.filter_map(|e| e.ok().map(|e| e.path())).collect();
